@@ -431,11 +431,34 @@ pub fn run_crash_case(case: &SqlReplay, opts: &CrashOpts) -> CrashRun {
             let ins = eng.exec("INSERT INTO zz_smoke VALUES (1, 1)");
             let sel = eng.exec("SELECT * FROM zz_smoke");
             let ok = matches!(smoke, Out::Ddl) && matches!(ins, Out::Count(1)) && sel == Out::Rows(vec![vec!["1".into(), "1".into()]]);
-            let dr = eng.exec("DROP TABLE zz_smoke");
+            // a committed DROP TABLE ... CASCADE took the table's indexes with it: after recovery their names are free again
+            let mut freed: Vec<&String> = vec![];
+            for j in 0..acked.min(case.events.len()) {
+                if let Event::Auto(crate::stmt::Stmt::DropTable { name: t, cascade: true }) = &case.events[j] {
+                    for e in &case.events[..j] {
+                        if let Event::Auto(crate::stmt::Stmt::CreateIndex { name, table, .. }) | Event::Exec(_, crate::stmt::Stmt::CreateIndex { name, table, .. }) = e {
+                            if table == t && !freed.contains(&name) {
+                                freed.push(name);
+                            }
+                        }
+                    }
+                }
+            }
+            let mut ok = ok;
+            let mut reuse = String::new();
+            if let Some(name) = freed.first() {
+                let r = eng.exec(&format!("CREATE UNIQUE INDEX {name} ON zz_smoke (id)"));
+                bump(&mut out.counters, "index_name_reuse_probes_after_cascade_drop", 1);
+                if !matches!(r, Out::Ddl) {
+                    ok = false;
+                    reuse = format!(" reuse of index name {name} of a table dropped with CASCADE: {}", r.short());
+                }
+            }
+            let dr = eng.exec(if freed.is_empty() { "DROP TABLE zz_smoke" } else { "DROP TABLE zz_smoke CASCADE" });
             if !ok || dr.is_err() || util::panic_count() > 0 {
                 let p = util::take_panics();
                 eng.leak_or_close();
-                out.violation = Some(Violation { oracle: "O-usable".into(), event: ev_idx, detail: format!("{at}: recovered database is not usable: create={} insert={} select={} drop={} panics={:?}", smoke.short(), ins.short(), sel.short(), dr.short(), p) });
+                out.violation = Some(Violation { oracle: "O-usable".into(), event: ev_idx, detail: format!("{at}: recovered database is not usable: create={} insert={} select={} drop={}{reuse} panics={:?}", smoke.short(), ins.short(), sel.short(), dr.short(), p) });
                 break;
             }
             bump(&mut out.counters, "smoke_transactions", 1);
